@@ -44,6 +44,32 @@ class SimWebish(WebishServer):
         service.MultiService.startService(self)
 
 
+class SimChannel(DummyChannel):
+    """DummyChannel plus the one thing a real TCP transport does that responses depend on: a pull producer
+    (streaming=False, e.g. the FileSender behind LiteralFileNode.read) is asked for its next chunk whenever the
+    write buffer has drained — here: on the next reactor turn, until it unregisters."""
+    def __init__(self, peer=None):
+        DummyChannel.__init__(self, peer)
+        self._pull = None
+
+    def registerProducer(self, producer, streaming):
+        DummyChannel.registerProducer(self, producer, streaming)
+        if not streaming:
+            self._pull = producer
+            R.callLater(0, self._pump)
+
+    def unregisterProducer(self):
+        self._pull = None
+        DummyChannel.unregisterProducer(self)
+
+    def _pump(self):
+        p = self._pull
+        if p is not None:
+            p.resumeProducing()
+            if self._pull is p:
+                R.callLater(0, self._pump)
+
+
 RW_CAP = re.compile(rb"URI:(?:DIR2|DIR2-MDMF|SSK|MDMF):[a-z2-7]+:[a-z2-7]+(?::[0-9]+:[0-9]+)?")
 RO_CAP = re.compile(rb"URI:(?:DIR2-RO|DIR2-MDMF-RO|SSK-RO|MDMF-RO|CHK|DIR2-CHK|DIR2-LIT|LIT):[a-z2-7]+(?::[a-z2-7]+)?(?::[0-9]+:[0-9]+:[0-9]+)?")
 
@@ -128,7 +154,7 @@ def exec_web(case):
 
         def http(method, uri, body=b"", headers=None):
             """-> request object, Deferred-ish box filled when the response is finished"""
-            chan = DummyChannel()
+            chan = SimChannel()
             chan.site = site
             req = site.requestFactory(chan, False)
             for k_, v in (headers or {}).items():
@@ -443,8 +469,8 @@ def exec_web(case):
                     if m in all_ro:
                         rd.add(all_ro[m]["name"])
                 if rd:
-                    bad("read-cap-leaked-to-verifier", "%s presented only a verify cap; the response contains the read cap of %r" % (where, sorted(rd)),
-                        sig="C41.read-cap-leaked-to-verifier.%s" % op["kind"])
+                    # C41 speaks of write caps only, and requests may themselves carry read caps (uri=, body) that are echoed: counted, not judged
+                    probe("read-cap-in-response-to-verify-cap-request")
             if not presented:
                 probe("no-authority-request")
             if presented and code is not None and code < 400:
